@@ -5,6 +5,7 @@ if [ -n "$(git -C /repo status --porcelain)" ]; then echo "/repo not clean"; exi
 for d in seeded/*/; do
   id=$(basename $d); pid=$(python3 -c "import json; print(json.load(open('$d/meta.json'))['property'])")
   [ -n "$1" ] && [[ "$id" != $1* ]] && continue
+  if python3 -c "import json,sys; sys.exit(0 if json.load(open('$d/meta.json')).get('retired') else 1)"; then echo "$id: retired (see meta.json)"; continue; fi
   git -C /repo apply /verif/$d/patch.diff 2>/dev/null || { echo "$id: patch does not apply (source moved on)"; continue; }
   ./run $pid quick > .work/seed_$id.log 2>&1; rc=$?
   git -C /repo checkout -- .
